@@ -66,7 +66,8 @@ def units(rng, tier):
             u["opt_lower"] = opt_lower
             us.append(u)
     # published worst-case families (Csirik, Frenk, Labbe, Zhang 1999), as in the doctests
-    for k in range(1, 6 if tier == "quick" else 12):
+    # ... and the same families with MORE THAN 500 ITEMS (k = 60: 721 and 1 560 items; a size-gated fallback to a weaker heuristic shows only there)
+    for k in list(range(1, 6 if tier == "quick" else 12)) + ([60] if tier == "quick" else [60, 90, 120]):
         fam = [
             (1000, [1000 - 6 * k] + 6 * k * [499] + 6 * k * [1], 3 * k + 1),       # worst case for decreasing / 2-3
             (1200, 2 * k * [594] + 12 * k * [399] + 12 * k * [1], None),            # worst case for 3/4
